@@ -119,6 +119,12 @@ theorem cfP1_get (n a0 a1 a2 a3 a4 a5 a6 a7 : Nat) (h0 : a0 ≤ n) (h1 : a1 ≤ 
   rcases this with rfl | rfl | rfl | rfl | rfl | rfl | rfl | rfl <;>
     simp (disch := omega) only [pairedGet, if_neg, ↓reduceIte] <;> rfl
 
+theorem cfP1_none (n a0 a1 a2 a3 a4 a5 a6 a7 x : Nat) (hx : x ≤ n) (h0 : x ≠ a0) (h1 : x ≠ a1) (h2 : x ≠ a2)
+    (h3 : x ≠ a3) (h4 : x ≠ a4) (h5 : x ≠ a5) (h6 : x ≠ a6) (h7 : x ≠ a7) :
+    pairedGet (cfP1 n a0 a1 a2 a3 a4 a5 a6 a7) x = none := by
+  unfold cfP1
+  simp (disch := omega) only [pairedGet, if_neg]
+
 theorem cfN_lt (k : Nat) (hk : k < 8) : cfN0 k < 8 ∧ cfN2 k < 8 ∧ cfN3 k < 8 := by
   have : k = 0 ∨ k = 1 ∨ k = 2 ∨ k = 3 ∨ k = 4 ∨ k = 5 ∨ k = 6 ∨ k = 7 := by omega
   rcases this with rfl | rfl | rfl | rfl | rfl | rfl | rfl | rfl <;> decide
@@ -137,9 +143,10 @@ theorem cutFace_commutes {ds s : DSetData} (hv : ValidSet ds) (hdim : ds.dim = 3
     (h : cutFace ds d1 d2 = .ok s) :
     ValidSet s ∧ s.size = ds.size + 8 ∧ s.dim = 3 ∧
     (∀ i d, i ≤ 3 → i ≠ 1 → 1 ≤ d → d ≤ ds.size → s.opU i d = ds.opU i d) ∧
-    ∀ c, ds.size < c → c ≤ ds.size + 8 →
+    (∀ c, ds.size < c → c ≤ ds.size + 8 →
       s.opU 2 (s.opU 0 c) = s.opU 0 (s.opU 2 c) ∧ s.opU 3 (s.opU 0 c) = s.opU 0 (s.opU 3 c) ∧
-      s.opU 3 (s.opU 1 c) = s.opU 1 (s.opU 3 c) := by
+      s.opU 3 (s.opU 1 c) = s.opU 1 (s.opU 3 c)) ∧
+    (FarCommute ds → FarCommute s) := by
   unfold cutFace at h
   obtain ⟨g, hg, h⟩ := bind_ok h
   obtain ⟨o2, ho2, h⟩ := bind_ok h
@@ -241,16 +248,105 @@ theorem cutFace_commutes {ds s : DSetData} (hv : ValidSet ds) (hdim : ds.dim = 3
     · subst h3
       rw [f3.unpaired x hx1 (by omega) (by omega) (cfP3_none ds.size x hx2)]; exact c2
     · rw [f3.other i x (by omega) hx1 (by omega) h3]; exact c2
-  refine ⟨f3.valid, s3, m3, B, ?_⟩
-  intro c hc1 hc2
-  obtain ⟨k, hk, rfl⟩ : ∃ k, k < 8 ∧ c = ds.size + 1 + k := ⟨c - ds.size - 1, by omega, by omega⟩
-  have hl := cfN_lt k hk
-  have hc := cfN_comm k hk
-  refine ⟨?_, ?_, ?_⟩
-  · rw [Z0 k hk, Z2 _ hl.1, Z2 k hk, Z0 _ hl.2.1, hc.1]
-  · rw [Z0 k hk, Z3 _ hl.1, Z3 k hk, Z0 _ hl.2.2, hc.2]
-  · obtain ⟨ho1, ho2, ho3⟩ := hold k hk
-    rw [Z1 k hk, B 3 _ (by omega) (by omega) ho1 ho2, ho3, Z3 k hk, Z1 _ hl.2.2]
+  have Z1' : ∀ k, k < 8 → s.opU 1 ([d1, d2, o2, o3, o4, o5, o6, o7].getD k 0) = ds.size + 1 + k := by
+    intro k hk
+    obtain ⟨ho1, ho2, _⟩ := hold k hk
+    rw [f3.other 1 _ (by omega) ho1 (by omega) (by omega),
+      f2.other 1 _ (by omega) ho1 (by omega) (by omega)]
+    exact (f1.paired _ _ (by omega) (by omega) (by omega)
+      (cfP1_get ds.size d1 d2 o2 o3 o4 o5 o6 o7 h12 h22 b2.2 b3.2 b4.2 b5.2 b6.2 b7.2 k hk)).2
+  have U1 : ∀ x, 1 ≤ x → x ≤ ds.size → x ≠ d1 → x ≠ d2 → x ≠ o2 → x ≠ o3 → x ≠ o4 → x ≠ o5 → x ≠ o6 → x ≠ o7 →
+      s.opU 1 x = ds.opU 1 x := by
+    intro x hx1 hx2 n0 n1 n2 n3 n4 n5 n6 n7
+    rw [f3.other 1 x (by omega) hx1 (by omega) (by omega), f2.other 1 x (by omega) hx1 (by omega) (by omega),
+      f1.unpaired x hx1 (by omega) (by omega) (cfP1_none ds.size d1 d2 o2 o3 o4 o5 o6 o7 x hx2 n0 n1 n2 n3 n4 n5 n6 n7),
+      f0.other 1 x (by omega) hx1 (by omega) (by omega)]
+    exact gold 1 x (by omega) hx1 hx2
+  have hnewc : ∀ c, ds.size < c → c ≤ ds.size + 8 →
+      s.opU 2 (s.opU 0 c) = s.opU 0 (s.opU 2 c) ∧ s.opU 3 (s.opU 0 c) = s.opU 0 (s.opU 3 c) ∧
+      s.opU 3 (s.opU 1 c) = s.opU 1 (s.opU 3 c) := by
+    intro c hc1 hc2
+    obtain ⟨k, hk, rfl⟩ : ∃ k, k < 8 ∧ c = ds.size + 1 + k := ⟨c - ds.size - 1, by omega, by omega⟩
+    have hl := cfN_lt k hk
+    have hc := cfN_comm k hk
+    refine ⟨?_, ?_, ?_⟩
+    · rw [Z0 k hk, Z2 _ hl.1, Z2 k hk, Z0 _ hl.2.1, hc.1]
+    · rw [Z0 k hk, Z3 _ hl.1, Z3 k hk, Z0 _ hl.2.2, hc.2]
+    · obtain ⟨ho1, ho2, ho3⟩ := hold k hk
+      rw [Z1 k hk, B 3 _ (by omega) (by omega) ho1 ho2, ho3, Z3 k hk, Z1 _ hl.2.2]
+  refine ⟨f3.valid, s3, m3, B, hnewc, ?_⟩
+  intro hfc a b v hab hb hv1 hv2
+  rw [m3] at hb
+  rw [s3] at hv2
+  by_cases hvn : ds.size < v
+  · obtain ⟨c02, c03, c13⟩ := hnewc v hvn hv2
+    have : (a = 0 ∧ b = 2) ∨ (a = 0 ∧ b = 3) ∨ (a = 1 ∧ b = 3) := by omega
+    rcases this with ⟨rfl, rfl⟩ | ⟨rfl, rfl⟩ | ⟨rfl, rfl⟩
+    · exact c02
+    · exact c03
+    · exact c13
+  · have hvo : v ≤ ds.size := by omega
+    -- old chambers: operations 0, 2, 3 are the old ones
+    have far023 : ∀ a b, a ≠ 1 → b ≠ 1 → a + 1 < b → b ≤ 3 → s.opU b (s.opU a v) = s.opU a (s.opU b v) := by
+      intro a b ha1 hb1 hab hb
+      have ra := hv.range a v (by omega) hv1 hvo
+      have rb := hv.range b v (by omega) hv1 hvo
+      rw [B a v (by omega) ha1 hv1 hvo, B b v hb hb1 hv1 hvo, B b _ hb hb1 ra.1 ra.2, B a _ (by omega) ha1 rb.1 rb.2]
+      exact hfc a b v hab (by omega) hv1 hvo
+    by_cases hb1 : a = 1
+    · -- the pair (1, 3)
+      have hb3 : b = 3 := by omega
+      subst hb1 hb3
+      have hmem : ∀ k, k < 8 → ([d1, d2, o2, o3, o4, o5, o6, o7].getD k 0 = d1 ∨
+          [d1, d2, o2, o3, o4, o5, o6, o7].getD k 0 = d2 ∨ [d1, d2, o2, o3, o4, o5, o6, o7].getD k 0 = o2 ∨
+          [d1, d2, o2, o3, o4, o5, o6, o7].getD k 0 = o3 ∨ [d1, d2, o2, o3, o4, o5, o6, o7].getD k 0 = o4 ∨
+          [d1, d2, o2, o3, o4, o5, o6, o7].getD k 0 = o5 ∨ [d1, d2, o2, o3, o4, o5, o6, o7].getD k 0 = o6 ∨
+          [d1, d2, o2, o3, o4, o5, o6, o7].getD k 0 = o7) := by
+        intro k hk
+        have : k = 0 ∨ k = 1 ∨ k = 2 ∨ k = 3 ∨ k = 4 ∨ k = 5 ∨ k = 6 ∨ k = 7 := by omega
+        rcases this with rfl | rfl | rfl | rfl | rfl | rfl | rfl | rfl <;> simp
+      by_cases h8 : v = d1 ∨ v = d2 ∨ v = o2 ∨ v = o3 ∨ v = o4 ∨ v = o5 ∨ v = o6 ∨ v = o7
+      · obtain ⟨k, hk, hvk⟩ : ∃ k, k < 8 ∧ v = [d1, d2, o2, o3, o4, o5, o6, o7].getD k 0 := by
+          rcases h8 with h | h | h | h | h | h | h | h
+          · exact ⟨0, by omega, h⟩
+          · exact ⟨1, by omega, h⟩
+          · exact ⟨2, by omega, h⟩
+          · exact ⟨3, by omega, h⟩
+          · exact ⟨4, by omega, h⟩
+          · exact ⟨5, by omega, h⟩
+          · exact ⟨6, by omega, h⟩
+          · exact ⟨7, by omega, h⟩
+        obtain ⟨ho1, ho2, ho3⟩ := hold k hk
+        have hl := cfN_lt k hk
+        rw [hvk, Z1' k hk, Z3 k hk, B 3 _ (by omega) (by omega) ho1 ho2, ho3, Z1' _ hl.2.2]
+      · simp only [not_or] at h8
+        obtain ⟨n0, n1, n2, n3, n4, n5, n6, n7⟩ := h8
+        have r1v := hv.range 1 v (by omega) hv1 hvo
+        have r3v := hv.range 3 v (by omega) hv1 hvo
+        rw [U1 v hv1 hvo n0 n1 n2 n3 n4 n5 n6 n7, B 3 _ (by omega) (by omega) r1v.1 r1v.2,
+          B 3 v (by omega) (by omega) hv1 hvo]
+        -- s3 v is not among the eight either: they are closed under s3
+        have hz : ∀ k, k < 8 → ds.opU 3 v ≠ [d1, d2, o2, o3, o4, o5, o6, o7].getD k 0 := by
+          intro k hk hz
+          obtain ⟨ho1, ho2, ho3⟩ := hold k hk
+          have hback : v = [d1, d2, o2, o3, o4, o5, o6, o7].getD (cfN3 k) 0 := by
+            rw [← ho3, ← hz]; exact (hv.invol 3 v (by omega) hv1 hvo).symm
+          have := hmem (cfN3 k) (cfN_lt k hk).2.2
+          rw [← hback] at this
+          rcases this with h | h | h | h | h | h | h | h
+          · exact n0 h
+          · exact n1 h
+          · exact n2 h
+          · exact n3 h
+          · exact n4 h
+          · exact n5 h
+          · exact n6 h
+          · exact n7 h
+        rw [U1 _ r3v.1 r3v.2 (hz 0 (by omega)) (hz 1 (by omega)) (hz 2 (by omega)) (hz 3 (by omega))
+          (hz 4 (by omega)) (hz 5 (by omega)) (hz 6 (by omega)) (hz 7 (by omega))]
+        exact hfc 1 3 v (by omega) (by omega) hv1 hvo
+    · have hb1' : b ≠ 1 := by omega
+      exact far023 a b hb1 hb1' hab hb
 
 /-! ### witnesses for the non-vacuity examples -/
 
